@@ -441,6 +441,10 @@ def run(pid: str, tier: str, replay: str | None = None) -> int:
             rep.add("traces_validated_against_impl", tot)
             rep.count("b1_law_vectors", len(lv))
 
+        # ----------------------------------------------------------- marker objects (C13 / C14 speak of both families)
+        if pid in ("C13", "C14"):
+            from . import check_marker
+            check_marker.marker_sessions(rep, (pid,), n_random=(6000 if thorough else 700), n_law=(4000 if thorough else 500), selfcheck=False)
         # ----------------------------------------------------------- B3: recorded sessions
         _b3(rep, pid, seed, n_random=(6000 if thorough else 700), n_law=(6000 if thorough else 500), tmp=tmp)
     finally:
